@@ -44,6 +44,13 @@ def daysFromCivil (y m d : Nat) : Nat :=
   ((List.range (y - 1970)).map fun i => if isLeapYear (1970 + i) then 366 else 365).sum +
   ((List.range (m - 1)).map fun i => daysInMonth y (i + 1)).sum + (d - 1)
 
+/-- the same day number with the year sum in closed form (365 days per year plus the leap days of the
+    years 1970 … y-1: multiples of 4, minus those of 100, plus those of 400); equal to `daysFromCivil` for
+    every y ≥ 1970 (`C18_daysFromCivil_closed`) and computable for years far beyond the reach of a summation -/
+def daysFromCivilClosed (y m d : Nat) : Nat :=
+  365 * (y - 1970) + ((y - 1) / 4 - (y - 1) / 100 + (y - 1) / 400) - 477 +
+  ((List.range (m - 1)).map fun i => daysInMonth y (i + 1)).sum + (d - 1)
+
 def validCivil (y m d : Nat) : Bool := 1970 ≤ y ∧ 1 ≤ m ∧ m ≤ 12 ∧ 1 ≤ d ∧ d ≤ daysInMonth y m
 
 def pad (w n : Nat) : String :=
